@@ -60,16 +60,22 @@ def _(c):
     c.requires("0 <= len(data) < 2**31", "java-array-length")
     c.loop(0, header="for i in range(length4)", invariants=[
         ("hash-prefix", "h == jm2_prefix(data, $i)"),
-        ("locals", "length == len(data) and length4 == length // 4 and m == 0x5BD1E995 and r == 24"),
-        ("index", "0 <= $i <= length4"),
+        ("index", "0 <= $i <= len(data) // 4"),
     ])
     c.ensures("java-equal", "result == jm2(data)")
     c.ensures("range", "0 <= result < 2**32")
 
     @c.replay
-    def replay(model):
-        return {"call": "aiokafka.partitioner:murmur2", "args": [model["data"]],
-                "expect": "specs.murmur2_java:jm2_py"}
+    def replay(model, ob=None):
+        # the counter-model of an inductive obligation is a loop-head state, not necessarily an
+        # input: it is tried first, then a witness search over boundary and seeded random keys
+        import random
+        rnd = random.Random(int(__import__("os").environ.get("VERIF_SEED", "0") or 0))
+        search = [[{"bytes": bytes(k).hex()}] for k in
+                  [b"", b"a", b"ab", b"abc", b"abcd", b"abcde", b"\xff" * 7, b"\x80\x00\xff\x7f\x01", bytes(range(16))]]
+        search += [[{"bytes": bytes(rnd.randrange(256) for _ in range(rnd.randrange(0, 40))).hex()}] for _ in range(200)]
+        return {"call": "aiokafka.partitioner:murmur2", "args": [model.get("data", {"bytes": ""})],
+                "expect": "specs.murmur2_py:jm2_py", "search": search}
 
 
 @contract("aiokafka.partitioner:DefaultPartitioner.__call__", "C17", mode="bv%d" % W)
